@@ -21,13 +21,20 @@ impl VxSR {
         ensures final(self).data@ == old(self).data@, final(self).pos@ == old(self).pos@, r matches Ok(p) ==> p == old(self).pos@,
     { unimplemented!() }
 }
-// decoders of the record that starts at byte p (their field order is checked against `serialize` by Kani unit K-ENTRYCODEC)
-uninterp spec fn cas_hdr_at(data: Seq<u8>, p: int) -> CASChunkSequenceHeader;
-uninterp spec fn cas_entry_at(data: Seq<u8>, p: int) -> CASChunkSequenceEntry;
-uninterp spec fn file_hdr_at(data: Seq<u8>, p: int) -> FileDataSequenceHeader;
-uninterp spec fn file_entry_at(data: Seq<u8>, p: int) -> FileDataSequenceEntry;
-uninterp spec fn verif_at(data: Seq<u8>, p: int) -> FileVerificationEntry;
-uninterp spec fn ext_at(data: Seq<u8>, p: int) -> FileMetadataExt;
+// decoders of a 48-byte record (their field order is checked against `serialize` by Kani unit K-ENTRYCODEC); the record that
+// starts at byte p of `data` is the decoding of those 48 bytes — so a decoder depends on nothing but the record's own bytes
+uninterp spec fn dec_cas_hdr(b: Seq<u8>) -> CASChunkSequenceHeader;
+uninterp spec fn dec_cas_entry(b: Seq<u8>) -> CASChunkSequenceEntry;
+uninterp spec fn dec_file_hdr(b: Seq<u8>) -> FileDataSequenceHeader;
+uninterp spec fn dec_file_entry(b: Seq<u8>) -> FileDataSequenceEntry;
+uninterp spec fn dec_verif(b: Seq<u8>) -> FileVerificationEntry;
+uninterp spec fn dec_ext(b: Seq<u8>) -> FileMetadataExt;
+spec fn cas_hdr_at(data: Seq<u8>, p: int) -> CASChunkSequenceHeader { dec_cas_hdr(data.subrange(p, p + 48)) }
+spec fn cas_entry_at(data: Seq<u8>, p: int) -> CASChunkSequenceEntry { dec_cas_entry(data.subrange(p, p + 48)) }
+spec fn file_hdr_at(data: Seq<u8>, p: int) -> FileDataSequenceHeader { dec_file_hdr(data.subrange(p, p + 48)) }
+spec fn file_entry_at(data: Seq<u8>, p: int) -> FileDataSequenceEntry { dec_file_entry(data.subrange(p, p + 48)) }
+spec fn verif_at(data: Seq<u8>, p: int) -> FileVerificationEntry { dec_verif(data.subrange(p, p + 48)) }
+spec fn ext_at(data: Seq<u8>, p: int) -> FileMetadataExt { dec_ext(data.subrange(p, p + 48)) }
 // the all-ones hash that ends a section
 pub uninterp spec fn bookend_hash() -> MerkleHash;
 
